@@ -23,7 +23,7 @@ func C06(r *core.Report) {
 		"R7 read re-entrancy - the linked-log and address readers shared by concurrent requests use no storage of the shared object as scratch space. " +
 		"R8 end of chain - OffsetAndSize.IsZero holds exactly for {Offset: 0, Size: 0} and every gsfa reader loop that follows the chain of linked-log records stops, as far as the pointer is concerned, exactly when it is nil or zero (decided by the truth table of the test over nil / Offset == 0 / Size == 0, helpers inlined): the record stored first in a log sits at offset 0 and must still be read. " +
 		"R9 flag accessors - each setter of OffsetAndSizeAndSlot stores exactly its argument at a constant bit, the getter of the same name returns that bit, no two flags share a bit, and Bitmap.Set sets the bit exactly when its value argument is true. " +
-		"R10 the address list of a transaction is de-duplicated in an order-independent way: slices.Compact is only applied to a list sorted before (Dedupe sorts first). R11 no reference-typed object other than a byte buffer is recycled through a sync.Pool in the writer (entries are shared by all addresses of a transaction). Not decided: exactly-once for all push histories and timings, zstd round trip, whether the rank keeps every address that still has a parked batch (purge arithmetic)."
+		"R10 the address list of a transaction is de-duplicated in an order-independent way: slices.Compact is only applied to a list sorted before (Dedupe sorts first). R11 no reference-typed object other than a byte buffer is recycled through a sync.Pool in the writer (entries are shared by all addresses of a transaction). R12 an address leaves the rank of addresses that filled a batch only through purge, behind purge's test that the rank holds more distinct counts than its list size: any other deletion (decay, reset, eviction by age) forgets addresses whose older batch may still be parked, and their next partial flush overtakes it. R8 also: a helper that yields the next chain pointer answers nil only for a nil or {0,0} pointer. Not decided: exactly-once for all push histories and timings, zstd round trip, whether purge itself can drop an address that still has a parked batch (it needs more than 10 000 distinct flush counts)."
 	r.Assumptions = []string{"channel FIFO and the Go memory model are trusted", "tidwall/hashmap is not safe for concurrent use"}
 	c06Prefix(r)
 	c06Drain(r)
@@ -49,6 +49,9 @@ func C06(r *core.Report) {
 	c06FlagAccessors(r)
 	c06DedupAfterSort(r)
 	c06NoEntryPooling(r)
+	c06RankForgetsOnlyInPurge(r)
+	chainPointerHelpers(r, "C06.R8")
+	r.Floor("C06.R12", 1)
 	r.Floor("C06.R10", 1)
 	r.Floor("C06.R9", 4)
 	r.Floor("C06.R8", 2)
